@@ -2,7 +2,7 @@
    model in model/Router.v meets it.  Everything is parametric in the value type, template evaluation, text
    conversion, the test registry and the test functions (Section variables = universally quantified). *)
 
-From Coq Require Import List NArith ZArith QArith Bool Lia.
+From Coq Require Import List NArith ZArith QArith Qround Bool Lia.
 From Verif Require Import model.Lang model.Router.
 Import ListNotations.
 Open Scope N_scope.
@@ -279,7 +279,7 @@ Proof.
       * right. exists (c :: pre), c', post. repeat split; [|exact Hc'].
         constructor; [split; [exact Hreg|right; exists m, x; exact Hres]|exact Hpre].
     + right. exists [], c, rest. repeat split; [constructor|]. right; left. split; assumption.
-  - right. exists [], c, rest. repeat split; [constructor|]. left; reflexivity.
+  - right. exists [], c, rest. repeat split; [constructor|]. left; exact Hreg.
 Qed.
 
 (* ---- SwitchRouter.Route --------------------------------------------------------------------------------------- *)
@@ -308,7 +308,7 @@ Proof.
   rewrite (match_case_skip _ _ _ Hpre), (match_case_hit _ _ _ _ _ Hm), Hmt. cbn [fst snd].
   apply N.eqb_neq in Hne. rewrite Hne. cbn [andb]. apply N.eqb_neq in Hne.
   rewrite (route_to_category_found _ _ _ _ _ _ _ _ Hne Hcat).
-  rewrite <- !app_assoc. reflexivity.
+  rewrite <- ?app_assoc. reflexivity.
 Qed.
 
 (* "otherwise by the default category's exit" — value: "the operand itself" *)
@@ -327,7 +327,7 @@ Proof.
   rewrite (match_case_all_skipped _ _ Hall).
   rewrite N.eqb_refl. apply N.eqb_neq in Hne. rewrite Hne. cbn [andb negb]. apply N.eqb_neq in Hne.
   rewrite (route_to_category_found _ _ _ _ _ _ _ _ Hne Hcat).
-  rewrite <- !app_assoc. reflexivity.
+  rewrite <- ?app_assoc. reflexivity.
 Qed.
 
 (* no case matches and there is no default: no category, nothing saved *)
@@ -374,13 +374,13 @@ Proof.
   - intros Hreg. rewrite (match_case_unregistered _ _ _ Hreg). cbn [fst snd].
     rewrite app_nil_r. reflexivity.
   - intros Hreg Hres. rewrite (match_case_other _ _ _ Hreg Hres). cbn [fst snd].
-    rewrite <- !app_assoc. reflexivity.
+    rewrite <- ?app_assoc. reflexivity.
   - intros m x Hm Hmt. rewrite (match_case_hit _ _ _ _ _ Hm), Hmt. cbn [fst snd].
-    rewrite <- !app_assoc. reflexivity.
+    rewrite <- ?app_assoc. reflexivity.
   - intros m x mt Hm Hmt Hne Hcat. rewrite (match_case_hit _ _ _ _ _ Hm), Hmt. cbn [fst snd].
     apply N.eqb_neq in Hne. rewrite Hne. cbn [andb]. apply N.eqb_neq in Hne.
     rewrite (route_to_category_unknown _ _ _ _ _ _ _ Hne Hcat).
-    rewrite <- !app_assoc. reflexivity.
+    rewrite <- ?app_assoc. reflexivity.
 Qed.
 
 (* a matching case without a category UUID (rejected when a definition is read: category_uuid is required) counts as
@@ -407,10 +407,10 @@ Proof.
   rewrite (match_case_skip _ _ _ Hpre), (match_case_hit _ _ _ _ _ Hm), Hmt. cbn [fst snd].
   rewrite Hk, N.eqb_refl. split.
   - intros ->. rewrite N.eqb_refl. cbn [andb negb]. rewrite route_to_category_none.
-    rewrite <- !app_assoc. reflexivity.
+    rewrite <- ?app_assoc. reflexivity.
   - intros Hne Hcat. apply N.eqb_neq in Hne. rewrite Hne. cbn [andb negb]. apply N.eqb_neq in Hne.
     rewrite (route_to_category_found _ _ _ _ _ _ _ _ Hne Hcat).
-    rewrite <- !app_assoc. reflexivity.
+    rewrite <- ?app_assoc. reflexivity.
 Qed.
 
 (* ---- RouteTimeout ------------------------------------------------------------------------------------------------ *)
@@ -653,10 +653,10 @@ Proof.
     intros H; inversion H; subst. apply andb_prop in Hc. destruct Hc as [Hc1 Hc2].
     destruct (Hex e eq_refl) as [Hin Hu].
     repeat split.
-    - symmetry; exact Hu.
+    - exact Hu.
     - apply negb_true_iff in Hc1. apply N.eqb_neq. exact Hc1.
     - apply existsb_exists in Hc2. destruct Hc2 as (n0 & Hin0 & Hn0). apply N.eqb_eq in Hn0. subst. exact Hin0.
-    - exists e. repeat split; [exact Hin|]. }
+    - exists e. repeat split; exact Hin. }
   destruct (n_router nd) as [r|] eqn:Hr.
   - set (out := router_out r is_timeout d timed_out_on prev) in *.
     destruct (ro_res out) as [| |u operand] eqn:Hres.
